@@ -108,7 +108,7 @@ def corpus_cases():
 
 
 def gen_case(rng, i):
-    return {'circuit': subcorr.random_supported_circuit(rng), 'basis': rng.choice(['AIG', 'XAIG', 'FULL', 'aig', 'xaig']),
+    return {'circuit': subcorr.absorption_circuit(rng) if rng.random() < 0.12 else subcorr.random_supported_circuit(rng), 'basis': rng.choice(['AIG', 'XAIG', 'FULL', 'aig', 'xaig']),
             'cut_seed': None if rng.random() < 0.7 else rng.randrange(10 ** 6),
             'time_limit': None, 'validate': rng.random() < 0.5,
             'max_subcircuit_size': rng.choice([9, 9, 4, 6]), 'cut_size': rng.choice([5, 5, 3, 4]),
@@ -174,11 +174,55 @@ def correspondence(ctx, model_ok):
     return r
 
 
+PRIMITIVE_CASES = ([{'primitive': 'inputs_tt', 'n': n} for n in range(0, 11)]
+                   + [{'primitive': 'eval_pattern', 'n': n, 'seed': s} for n in (0, 1, 2, 3, 5, 6, 7, 8) for s in range(3)])
+
+
+def oracle_primitive(case):
+    """the pattern primitives against their definition, directly on the implementation: pattern j of
+    _generate_inputs_tt(n) has bit i set iff bit j of i is set (i < 2^n, nothing above), max_pattern is
+    2^(2^n) - 1, eval_pattern computes the gate's function bit by bit.  Sizes above the default cut size
+    are included: minimize_subcircuits accepts any cut_size"""
+    import random
+    from cirbo.core.circuit import gate
+    from cirbo.minimization.subcircuit import _PatternOperations, _generate_inputs_tt
+    n = case['n']
+    rows = 1 << n
+    if case['primitive'] == 'inputs_tt':
+        tts = _generate_inputs_tt(n)
+        if len(tts) != n:
+            return f'_generate_inputs_tt({n}) has {len(tts)} patterns'
+        for j, pat in enumerate(tts):
+            exp = sum(((i >> j) & 1) << i for i in range(rows))
+            if pat != exp:
+                bad = [i for i in range(max(rows, pat.bit_length())) if (pat >> i) & 1 != (exp >> i) & 1][:3]
+                return (f'_generate_inputs_tt({n})[{j}] is not the truth table of input {j}: rows {bad} differ '
+                        f'(pattern simulation no longer denotes evaluation for cuts with {n} leaves)')
+        if _PatternOperations(n).max_pattern != (1 << rows) - 1:
+            return f'max_pattern of size {n} is not 2^(2^{n}) - 1'
+        return None
+    rng = random.Random(case['seed'] * 1000 + n)
+    po = _PatternOperations(n)
+    for name in ['NOT', 'AND', 'NAND', 'OR', 'NOR', 'XOR', 'NXOR', 'GEQ', 'LT', 'LEQ', 'GT']:
+        k = 1 if name == 'NOT' else (2 if name in ('GEQ', 'LT', 'LEQ', 'GT') else rng.choice([2, 2, 3, 4]))
+        ops = [rng.getrandbits(rows) for _ in range(k)]
+        if rng.random() < 0.3 and k >= 2:
+            ops[-1] = ops[0]
+        got = po.eval_pattern(list(ops), name)
+        op = getattr(gate, name).operator
+        exp = sum(int(bool(op(*[bool((o >> i) & 1) for o in ops]))) << i for i in range(rows))
+        if got != exp:
+            return f'eval_pattern({name}, size {n}) differs from the gate function on patterns {ops}: {got} instead of {exp}'
+    return None
+
+
 def oracle_cases(ctx, corr):
-    return [dict(c) for c in getattr(corr, '_cases', [])]
+    return [dict(c) for c in PRIMITIVE_CASES] + [dict(c) for c in getattr(corr, '_cases', [])]
 
 
 def oracle(case):
+    if 'primitive' in case:
+        return oracle_primitive(case)
     case = dict(case)
     case['circuit'] = dict(case['circuit'])
     case['circuit']['gates'] = [tuple(g) for g in case['circuit']['gates']]
@@ -208,6 +252,10 @@ def classify(case, msg):
 
 def search(ctx, budget_s):
     t0 = time.time()
+    for c in PRIMITIVE_CASES:
+        msg = oracle(c)
+        if msg:
+            return dict(c), msg
     i = 0
     while time.time() - t0 < budget_s:
         i += 1
